@@ -80,7 +80,7 @@ func runC04(c *Ctx) {
 	// the recorded one" (a further condition - "the station has other hosts" - leaves the recorded address stale, and the
 	// next change back to it is not seen as a change: two IPv4 addresses of one MAC stay online)
 	if ot := c.A.Method("", "Session", "onlineTransition"); ot != nil {
-		allowed := regexp.MustCompile(`^!?(\(arg0\.Addr\.IP==arg0\.MACEntry\.(IP4|IP6GUA|IP6LLA)\)|arg0\.Online|\(net/netip\.Addr\)\.(Is4|Is6|IsGlobalUnicast|IsLinkLocalUnicast)\(arg0\.Addr\.IP\))$`)
+		allowed := regexp.MustCompile(`^!?(\(arg0\.Addr\.IP==arg0\.MACEntry\.(IP4|IP6GUA|IP6LLA)\)|\(arg0\.MACEntry\.(IP4|IP6GUA|IP6LLA)==arg0\.Addr\.IP\)|arg0\.Online|\(net/netip\.Addr\)\.(Is4|Is6|IsGlobalUnicast|IsLinkLocalUnicast)\(arg0\.Addr\.IP\))$`)
 		core.EachInstr(ot, func(i ssa.Instruction) {
 			st, ok := i.(*ssa.Store)
 			if !ok || !regexp.MustCompile(`^arg0\.MACEntry\.(IP4|IP6GUA|IP6LLA)$`).MatchString(norm(st.Addr)) {
@@ -283,7 +283,7 @@ func runC04(c *Ctx) {
 			case strings.HasSuffix(a, "HostList[(φ+1)].Online") || strings.HasSuffix(a, "HostList[(φ+1)].dirty"):
 				requireGuards(c, "online", "onlineTransition sibling "+a[strings.LastIndex(a, ".")+1:], i, []guardReq{
 					{"new host is IPv4", `^\(net/netip\.Addr\)\.Is4\(arg0\.Addr\.IP\)$`},
-					{"its address differs from the MAC entry's current IPv4", `^!\(arg0\.Addr\.IP==arg0\.MACEntry\.IP4\)$`},
+					{"its address differs from the MAC entry's current IPv4", `^!\((arg0\.Addr\.IP==arg0\.MACEntry\.IP4|arg0\.MACEntry\.IP4==arg0\.Addr\.IP)\)$`},
 					{"sibling is IPv4", `^\(net/netip\.Addr\)\.Is4\(.*HostList\[\(φ\+1\)\]\.Addr\.IP\)$`},
 					{"sibling has a different address", `^!\(arg0\.MACEntry\.HostList\[\(φ\+1\)\]\.Addr\.IP==arg0\.Addr\.IP\)$`},
 					{"sibling is online", `^arg0\.MACEntry\.HostList\[\(φ\+1\)\]\.Online$`}})
